@@ -82,6 +82,7 @@ type ordSig struct {
 	variants []int
 	locked   bool
 	state    string
+	creator  int // 0: none; otherwise 1 + the class of the single "created by" frame
 }
 
 func (o ordSig) String() string {
@@ -93,7 +94,11 @@ func (o ordSig) String() string {
 		}
 		p = append(p, s)
 	}
-	return fmt.Sprintf("[%s] lk=%v %q", strings.Join(p, ","), o.locked, o.state)
+	cr := ""
+	if o.creator != 0 {
+		cr = " created-by=" + classNames[o.creator-1]
+	}
+	return fmt.Sprintf("[%s] lk=%v %q%s", strings.Join(p, ","), o.locked, o.state, cr)
 }
 
 func (o ordSig) signature() Signature {
@@ -103,6 +108,11 @@ func (o ordSig) signature() Signature {
 		loc := c.Location
 		s.Stack.Calls = append(s.Stack.Calls, c)
 		s.Stack.Calls[i].Location = loc
+	}
+	if o.creator != 0 {
+		c := classCall(o.creator-1, 1)
+		c.Args = Args{}
+		s.CreatedBy.Calls = []Call{c}
 	}
 	return s
 }
@@ -124,7 +134,7 @@ func ordUniverse(thorough bool) []ordSig {
 		if variants == nil {
 			variants = make([]int, len(classes))
 		}
-		u = append(u, ordSig{append([]int{}, classes...), append([]int{}, variants...), locked, state})
+		u = append(u, ordSig{classes: append([]int{}, classes...), variants: append([]int{}, variants...), locked: locked, state: state})
 	}
 	maxFull := 2
 	if thorough {
@@ -180,6 +190,16 @@ func ordUniverse(thorough bool) []ordSig {
 		add(base, nil, true, "chan receive")
 		add(base, nil, false, "select")
 		add(base, nil, true, "select")
+	}
+	// the same stack created from frames of different location classes (resolved,
+	// unresolved, none), in two states: a key that looks at the creator only for some
+	// pairs would show here
+	for _, base := range [][]int{{clStdlib}, {clMain, clStdlib}} {
+		for _, cr := range []int{1 + clGOPATH, 1 + clStdlib, 1 + clUnknown, 1 + clGoMod} {
+			for _, st := range []string{"chan receive", "select"} {
+				u = append(u, ordSig{classes: append([]int{}, base...), variants: make([]int, len(base)), state: st, creator: cr})
+			}
+		}
 	}
 	return u
 }
